@@ -58,9 +58,19 @@ void vm_init(VmState *vm, const NvmModule *module) {
     vm->cop_out_fd = -1;
     vm->cop_pid = -1;
     vm_heap_init(&vm->heap);
+#ifdef NANOLANG_VERIF
+    { const char *f = getenv("NLVERIF_FUEL"); if (f) vm->verif_fuel = strtoull(f, NULL, 10); }
+#endif
 }
 
+#ifdef NANOLANG_VERIF
+static void verif_opstats_dump(VmState *vm);
+#endif
+
 void vm_destroy(VmState *vm) {
+#ifdef NANOLANG_VERIF
+    verif_opstats_dump(vm);
+#endif
     /* Release all globals */
     for (uint32_t i = 0; i < vm->global_count; i++) {
         vm_release(&vm->heap, vm->globals[i]);
@@ -167,6 +177,20 @@ static inline VmTrap trap_error(VmState *vm, VmResult err, const char *fmt, ...)
  * external operation (I/O, FFI, halt) or completes / errors.
  * ======================================================================== */
 
+#ifdef NANOLANG_VERIF
+/* ---- verification hook H1: executed-opcode histogram, appended to $NLVERIF_OPSTATS ---- */
+static void verif_opstats_dump(VmState *vm) {
+    const char *path = getenv("NLVERIF_OPSTATS");
+    if (!path || !path[0]) return;
+    FILE *f = fopen(path, "a");
+    if (!f) return;
+    fprintf(f, "OPSTATS");
+    for (int i = 0; i < 256; i++) if (vm->verif_opcount[i]) fprintf(f, " %d:%llu", i, (unsigned long long)vm->verif_opcount[i]);
+    fprintf(f, "\n");
+    fclose(f);
+}
+#endif
+
 VmTrap vm_core_execute(VmState *vm) {
     const uint8_t *code = vm->module->code;
 
@@ -186,6 +210,12 @@ VmTrap vm_core_execute(VmState *vm) {
 
         uint32_t instr_start = vm->ip;
         vm->ip += consumed;
+#ifdef NANOLANG_VERIF
+        vm->verif_opcount[instr.opcode]++;
+        if (vm->verif_fuel && --vm->verif_fuel == 0) {
+            return trap_error(vm, VM_ERR_NOT_IMPLEMENTED, "verif: fuel exhausted");
+        }
+#endif
 
         switch (instr.opcode) {
 
